@@ -1039,6 +1039,10 @@ class BaseMatcher:
                             self.lattice[obs_idx].upsert(m_next)
                             logger.debug(str(m_next))
                         elif m_next is not None:
+                            if m_next.key in cur_lattice_new and cur_lattice_new[m_next.key].stop:
+                                # A stopped matching (only kept when debugging) does not count as a visit of
+                                # this state, the new matching has to be tested like a first one.
+                                del cur_lattice_new[m_next.key]
                             if m_next.key in cur_lattice_new:
                                 self.lattice[obs_idx].upsert(m_next)
                             else:
